@@ -185,6 +185,51 @@ func TestC06(t *testing.T) {
 				}
 				vals = append(vals, w)
 				kinds = append(kinds, "field-refers-to-earlier-value")
+			case k == 5 && rapid.Bool().Draw(rt, "longTyped"):
+				// a typed list longer than any pre-allocation bound of the decoder, with further values behind it
+				ln := rapid.SampledFrom([]int{65, 66, 100, 257, 300}).Draw(rt, "longLen")
+				var v interface{}
+				switch rapid.IntRange(0, 4).Draw(rt, "longElem") {
+				case 0:
+					l := make([]string, ln)
+					for j := range l {
+						l[j] = fmt.Sprintf("s%d", j%7)
+					}
+					v = l
+				case 1:
+					l := make([]int32, ln)
+					for j := range l {
+						l[j] = int32(j * 1000)
+					}
+					v = l
+				case 2:
+					l := make([]*zoo.Inner, ln)
+					for j := range l {
+						if j%5 != 4 {
+							l[j] = &zoo.Inner{A: int32(j), S: "e"}
+						}
+					}
+					v = &zoo.SlPtr{L: l}
+				case 3:
+					l := make([]time.Time, ln)
+					for j := range l {
+						if j%9 != 3 { // zero timestamps in between
+							l[j] = time.UnixMilli(int64(j) * 86400000)
+						}
+					}
+					v = l
+				default:
+					l := make([]float64, ln)
+					for j := range l {
+						l[j] = float64(j) / 8
+					}
+					v = &zoo.SlF64{L: l}
+				}
+				vals = append(vals, v)
+				kinds = append(kinds, fmt.Sprintf("long-typed-list(%d):%T", ln, v))
+				if rv := reflect.ValueOf(v); rv.Kind() == reflect.Slice {
+					conts = append(conts, v)
+				}
 			case k == 2:
 				vals = append(vals, rapid.SampledFrom([]interface{}{nil, "", time.Time{}, map[string]int32{}, (*zoo.Inner)(nil)}).Draw(rt, "nullish"))
 				kinds = append(kinds, "null-rendered")
@@ -304,6 +349,12 @@ func TestC06(t *testing.T) {
 		}
 		if reused {
 			r.Label("reuses-class-or-ref")
+		}
+		for i, k := range kinds {
+			if strings.HasPrefix(k, "long-typed-list") && i < len(kinds)-1 {
+				r.Label("typed list of more than 64 elements followed by further values")
+				break
+			}
 		}
 		r.Label("api:" + via)
 		r.Label("len:" + bucket(len(vals)))
